@@ -19,7 +19,7 @@ mod est;
 use dense::Dense64;
 use gen::Gen;
 use nalgebra::{DMatrix, RowDVector};
-use ndarray::{Array1, Array2, ShapeBuilder};
+use ndarray::{s, Array1, Array2, Axis, ShapeBuilder, Slice};
 use ops::*;
 use serde_json::{json, Value};
 use vutil::*;
@@ -37,6 +37,56 @@ impl Be for NdArr {
             // column-major data: an array in Fortran layout (non-standard memory order)
             "new" => Array2::from_shape_vec((r, c).f(), data.to_vec()).unwrap(),
             "from_2d_array" | "from_2d_vec" => Array2::from_shape_fn((r, c), |(i, j)| data[i * c + j]),
+            // ---- constructions through ndarray's own API: the logical content is `data` (row-major, r x c),
+            //      the buffer behind it is larger, offset, stepped, reversed or differently ordered.  Cells
+            //      that do not belong to the logical matrix hold the sentinels 77 / -77.
+            "nat_row_offset" => {
+                // rows cut off in place: slice_move of an (r+3) x c array (still row-major, pointer offset)
+                let big = Array2::from_shape_fn((r + 3, c), |(i, j)| if i >= 1 && i <= r { data[(i - 1) * c + j] } else { 77.0 });
+                big.slice_move(s![1..r + 1, ..])
+            }
+            "nat_col_offset" => {
+                // columns cut off: row stride larger than the row length (not contiguous)
+                let big = Array2::from_shape_fn((r, c + 2), |(i, j)| if j >= 1 && j <= c { data[i * c + j - 1] } else { -77.0 });
+                big.slice_move(s![.., 1..c + 1])
+            }
+            "nat_inplace" => {
+                let mut big = Array2::from_shape_fn((r + 2, c + 1), |(i, j)| if i >= 2 && j < c { data[(i - 2) * c + j] } else { 77.0 });
+                big.slice_axis_inplace(Axis(0), Slice::from(2..r + 2));
+                big.slice_axis_inplace(Axis(1), Slice::from(0..c));
+                big
+            }
+            "nat_strided" => {
+                // every second row and every second column of a larger array
+                let big = Array2::from_shape_fn((2 * r, 2 * c), |(i, j)| if i % 2 == 0 && j % 2 == 0 { data[(i / 2) * c + j / 2] } else { -77.0 });
+                big.slice_move(s![..;2, ..;2])
+            }
+            "nat_reversed" => {
+                // negative strides: built upside down and mirrored, then both axes inverted
+                let mut a = Array2::from_shape_fn((r, c), |(i, j)| data[(r - 1 - i) * c + (c - 1 - j)]);
+                a.invert_axis(Axis(0));
+                a.invert_axis(Axis(1));
+                a
+            }
+            "nat_t_owned" => {
+                let t = Array2::from_shape_fn((c, r), |(j, i)| data[i * c + j]);
+                t.t().to_owned()
+            }
+            "nat_broadcast" => {
+                // all rows equal (the generator supplies such data): a 1-d row broadcast to r x c, made owned
+                let row = Array1::from_vec(data[..c].to_vec());
+                row.broadcast((r, c)).unwrap().to_owned()
+            }
+            "nat_remove_row" => {
+                let mut big = Array2::from_shape_fn((r + 1, c), |(i, j)| if i >= 1 { data[(i - 1) * c + j] } else { 77.0 });
+                big.remove_index(Axis(0), 0);
+                big
+            }
+            "nat_resize" => {
+                // no resize in ndarray: the leading block of a larger array, taken by value
+                let big = Array2::from_shape_fn((r + 1, c + 1), |(i, j)| if i < r && j < c { data[i * c + j] } else { -77.0 });
+                big.slice_move(s![..r, ..c])
+            }
             _ => Array2::from_shape_vec((r, c), data.to_vec()).unwrap(),
         }
     }
@@ -57,6 +107,28 @@ impl Be for Nalg {
         match via {
             "new" => DMatrix::from_vec(r, c, data.to_vec()),
             "from_2d_array" | "from_2d_vec" => DMatrix::from_fn(r, c, |i, j| data[i * c + j]),
+            // ---- constructions through nalgebra's own API
+            "nat_row_offset" | "nat_inplace" => {
+                let big = DMatrix::from_fn(r + 3, c, |i, j| if i >= 1 && i <= r { data[(i - 1) * c + j] } else { 77.0 });
+                big.rows(1, r).into_owned()
+            }
+            "nat_col_offset" => {
+                let big = DMatrix::from_fn(r, c + 2, |i, j| if j >= 1 && j <= c { data[i * c + j - 1] } else { -77.0 });
+                big.columns(1, c).into_owned()
+            }
+            "nat_strided" => {
+                let big = DMatrix::from_fn(2 * r, 2 * c, |i, j| if i % 2 == 0 && j % 2 == 0 { data[(i / 2) * c + j / 2] } else { -77.0 });
+                big.slice_with_steps((0, 0), (r, c), (1, 1)).into_owned()
+            }
+            "nat_remove_row" => {
+                let big = DMatrix::from_fn(r + 1, c, |i, j| if i >= 1 { data[(i - 1) * c + j] } else { 77.0 });
+                big.remove_row(0)
+            }
+            "nat_resize" => {
+                let big = DMatrix::from_fn(r + 1, c + 2, |i, j| if i < r && j < c { data[i * c + j] } else { -77.0 });
+                big.resize(r, c, 0.0)
+            }
+            "nat_t_owned" => DMatrix::from_fn(c, r, |j, i| data[i * c + j]).transpose(),
             _ => DMatrix::from_row_slice(r, c, data),
         }
     }
@@ -142,8 +214,9 @@ fn main() {
         "gen-prog" => {
             let mut out = Out::create(arg(args, 1));
             let mut agree = Out::create(arg(args, 2));
-            let groups: usize = args.get(3).and_then(|s| s.parse().ok()).unwrap_or(if th { 12000 } else { 700 });
+            let groups: usize = args.get(3).and_then(|s| s.parse().ok()).unwrap_or(if th { 12000 } else { 1000 });
             let mut g = Gen::new(rng(20), false, 8);
+            g.allow_native = true;
             let mut skipped_calls = 0;
             for i in 0..groups {
                 skipped_calls += group(&mut g, i as i64 + 1, 12, &mut out, &mut agree);
